@@ -84,7 +84,7 @@ Fixpoint denote (s : spec) (c : ctx) (b : abody) (lbls : list (list Z)) {struct 
         match first_per_path
                 (map (fun bk => (firstn (length ls) (blabels bk),
                                  prepare_body_val (denote n c (bbody bk) (skipn (length ls) (blabels bk))) (bbody bk))) bl) [] with
-        | [] => VMap (implied_type n) []
+        | [] => VMap (iter_ty (pred (length ls)) TMap (implied_type n)) []   (* the empty map of the implied type *)
         | items => some_or_dyn (nest map_val (length ls) items)
         end
   | SBlockObject tn ls n =>
